@@ -25,11 +25,15 @@ def run(ctx):
     with V.Lock("build"):
         V.build_go()
         V.regen()
+    import time as _t
+    _t0 = _t.time()
     obs = T.observe("thorough" if thorough else "quick")
+    V.log("c05: observation %.1fs" % (_t.time() - _t0)); _t0 = _t.time()
     with V.Lock("build"):
         T.write_obs(obs)
         T.write_known_gaps()
     proved = ctx.prove(targets=["Model/TablesGaps.vo"])
+    V.log("c05: prove %.1fs" % (_t.time() - _t0)); _t0 = _t.time()
     ctx.trusted += [
         "Coq 8.16.1 kernel (coqc; vm_compute is the proof method of the finite-table theorems, as the property's domain is finite and completely enumerated; no native_compute)",
         "axioms: none (Print Assumptions of every theorem of Props/C05.v: Closed under the global context)",
@@ -70,7 +74,9 @@ def run(ctx):
                       {"request": req, "reply": rep}, {"kind": "no-verdict", "name": req})
 
     # ---- the disagreeing cells, computed by Coq from the regenerated tables
+    V.log("c05: corpus + fresh %.1fs" % (_t.time() - _t0)); _t0 = _t.time()
     rows, sizes, log = T.gap_rows()
+    V.log("c05: gap rows %.1fs" % (_t.time() - _t0)); _t0 = _t.time()
     kinds = collections.Counter()
     if rows is None:
         ctx.obligation("Model/TablesGaps.v evaluates", False, (log or "")[-400:])
